@@ -65,8 +65,49 @@ def strategy_(draw, thorough):
     return case
 
 
+@st.composite
+def many_categories_(draw):
+    """A categorical with a label count around the width limits of the codes (int8/int16): the handle reports the column
+    as categorical for every form of the `categories` option, and the read must then deliver it."""
+    return {"src": "many_categories", "labels": draw(st.sampled_from([128, 129, 32767, 32768, 32768, 32769, 40000])),
+            "form": draw(st.sampled_from(["list", "list", "dict", "none"])), "rows": draw(st.sampled_from([1, 7])),
+            "read": {"pandas_nulls": True}}
+
+
 def strategy(tier):
-    return strategy_(tier == "thorough")
+    return st.integers(0, 19).flatmap(lambda k: many_categories_() if k == 0 else strategy_(tier == "thorough"))
+
+
+def _many_categories(case):
+    import fastparquet
+    n, form = case["labels"], case["form"]
+    labels = ["src:many_categories", "form:" + form, "labels:%s" % ("<2^7" if n < 128 else "<2^15" if n < 32768 else ">=2^15")]
+    cats = ["c%05d" % i for i in range(n)]
+    codes = [(i * 7919) % n for i in range(n)]
+    df = pd.DataFrame({"x": pd.Categorical.from_codes(codes, categories=cats), "v": np.arange(len(codes), dtype="int64")})
+    with common.Scratch() as d:
+        path = os.path.join(d, "t.parq")
+        try:
+            fastparquet.write(path, df)
+        except Exception as e:
+            return discard("write_raised:" + exc_sig(e), labels)
+        pf = fastparquet.ParquetFile(path)
+        kw = {"list": {"categories": ["x"]}, "dict": {"categories": {"x": n}}, "none": {}}[form]
+        try:
+            claimed = dict(pf._dtypes(kw.get("categories")))
+        except Exception as e:
+            return viol("metadata_raised|_dtypes|many_categories|" + exc_sig(e), exc_detail(e), labels=labels)
+        try:
+            out = pf.to_pandas(**kw)
+        except Exception as e:
+            return viol("read_raised_after_prediction|many_categories|" + exc_sig(e),
+                        "dtypes predicted %r for a column of %d labels (categories=%s form), then: %s" % (str(claimed.get("x")), n, form, exc_detail(e)),
+                        labels=labels)
+        if norm_dtype(claimed["x"]) != norm_dtype(out["x"].dtype):
+            return viol("dtype|many_categories", "dtypes says %s, the read gives %s" % (claimed["x"], out["x"].dtype), labels=labels)
+        if out["x"].astype(object).tolist() != df["x"].astype(object).tolist():
+            return viol("value|many_categories", "labels read differ from the labels written (%d labels)" % n, labels=labels)
+    return ok(True, labels + ["categorical"])
 
 
 def _foreign_bytes(case):
@@ -106,6 +147,8 @@ def norm_dtype(x):
 
 def run_case(case):
     import fastparquet
+    if case.get("src") == "many_categories":
+        return _many_categories(case)
     src = case["src"]
     rd = case["read"]
     labels = ["src:" + src, "pandas_nulls:%s" % rd["pandas_nulls"]]
@@ -223,11 +266,20 @@ def run_case(case):
             i = rd["colpick"][0] % len(claimed_rg)
             try:
                 sub = pf[i]
-                sc, si, sl = sub.count(), sub.info.get("rows"), len(sub.to_pandas())
+                subdf = sub.to_pandas(**kw)
+                sc, si, sl = sub.count(), sub.info.get("rows"), len(subdf)
             except Exception as e:
                 return discard("slice_read_raised:" + exc_sig(e), labels)
             if not (sc == si == sl == claimed_rg[i]):
                 return viol("slice_count|%s" % src, "pf[%d]: count()=%r info.rows=%r, rows read %d, row group claims %d" % (i, sc, si, sl, claimed_rg[i]), labels=labels)
+            # ... and the dtypes the handle reported hold for every part of the dataset read through it
+            for c in [str(x) for x in subdf.columns]:
+                if c in claimed_cats or c not in claimed_dtypes:
+                    continue
+                want, got = norm_dtype(claimed_dtypes[c]), norm_dtype(subdf[c].dtype)
+                if want != got:
+                    return viol("slice_dtype|%s|%s->%s" % (src, _fam(want), _fam(got)),
+                                "column %r: the handle's dtypes say %s, pf[%d].to_pandas() gives %s" % (c, want, i, got), labels=labels)
             labels.append("slice_checked")
         # partition values known from metadata cover the labels read
         for c, vals in claimed_cats.items():
@@ -263,6 +315,8 @@ def _fam(s):
 
 
 def shrink_moves(case):
+    if case.get("src") == "many_categories":
+        return
     rd = case["read"]
     for k, v in (("columns", False), ("categories", None), ("index", "default"), ("dtypes_identity", False), ("pandas_nulls", True)):
         if rd.get(k) != v:
@@ -289,6 +343,8 @@ def shrink_moves(case):
 
 
 def abbreviate(case):
+    if case["src"] == "many_categories":
+        return case
     if case["src"] == "foreign":
         from vf.props import c03
         a = c03.abbreviate(case)
